@@ -3,4 +3,4 @@ From Coq Require Import ExtrOcamlBasic.
 From ZV Require Import Place.Model.
 Extraction Language OCaml.
 Extraction "model.ml" Z.of_N N.of_nat Nat.add N.to_nat rebalance rebalance_from_lists node_name_list ring_of_lists
-  fill_v1 fill_v2 v2_fill_phase move_step move_loop mkload.
+  fill_v1 fill_v2 v2_fill_phase move_step move_loop mkload alloc_node unwanted_node.
